@@ -230,6 +230,21 @@ func init() {
 				hs.Println(hs.CallN("scale", hs.I(2))),
 				hs.LetS("scale", lit(7)), hs.Println(hs.CallN("scale", hs.I(3)), hs.CallN("apply", hs.V("scale"), hs.I(4))))
 		}},
+		callCase{"literals-are-new-values-on-every-evaluation", func() *hs.Program {
+			tag := hs.Fn("tag", hs.TList(hs.TStr), hs.Blk(hs.MCall(hs.V("o"), "keys"), hs.LetS("o", &hs.AnyObjLit{}), hs.ES(hs.MCall(hs.V("o"), "set", hs.V("key"), hs.I(1)))), hs.P("key", hs.TStr))
+			fill := hs.Fn("fill", hs.TList(hs.TInt), hs.Blk(hs.V("l"), hs.LetT("l", hs.TList(hs.TInt), hs.List()), hs.ES(hs.MCall(hs.V("l"), "push", hs.V("n")))), intP("n"))
+			grow := hs.Fn("grow", hs.TList(hs.TInt), hs.Blk(hs.V("l"), hs.LetS("l", hs.List(hs.I(0))), hs.ES(hs.MCall(hs.V("l"), "push", hs.V("n")))), intP("n"))
+			bump := hs.Fn("bump", hs.TInt, hs.Blk(hs.Mem(hs.V("ob"), "a"), hs.LetS("ob", &hs.ObjLit{Fields: []hs.ObjField{{Name: "a", X: hs.I(1)}}}), hs.ES(hs.Asg("+=", hs.Mem(hs.V("ob"), "a"), hs.V("n")))), intP("n"))
+			loop := &hs.For{Var: "i", Iter: &hs.RangeLit{From: hs.I(0), To: hs.I(3)}, Body: hs.Blk(nil,
+				hs.LetS("o", &hs.AnyObjLit{}), hs.ES(hs.MCall(hs.V("o"), "set", hs.MCall(hs.V("i"), "to_string"), hs.V("i"))),
+				hs.LetT("e", hs.TList(hs.TInt), hs.List()), hs.ES(hs.MCall(hs.V("e"), "push", hs.V("i"))),
+				hs.Println(hs.MCall(hs.V("o"), "keys"), hs.V("e")))}
+			return mainOnly([]*hs.Func{tag, fill, grow, bump},
+				hs.Println(hs.CallN("tag", hs.S("a"))), hs.Println(hs.CallN("tag", hs.S("b"))), hs.Println(hs.CallN("tag", hs.S("c"))),
+				hs.Println(hs.CallN("fill", hs.I(1))), hs.Println(hs.CallN("fill", hs.I(2))),
+				hs.Println(hs.CallN("grow", hs.I(1))), hs.Println(hs.CallN("grow", hs.I(2))),
+				hs.Println(hs.CallN("bump", hs.I(1))), hs.Println(hs.CallN("bump", hs.I(2))), loop)
+		}},
 		callCase{"null-function-as-statement-and-value", func() *hs.Program {
 			f := hs.Fn("side", nil, hs.Blk(nil, hs.Println(hs.S("side"), hs.V("a"))), intP("a"))
 			return mainOnly([]*hs.Func{f}, hs.ES(hs.CallN("side", hs.I(1))), hs.ES(hs.CallN("side", hs.I(2))), hs.LetS("k", hs.I(3)), hs.Println(hs.V("k")))
